@@ -90,6 +90,7 @@ func main() {
 			}
 		}()
 		fn(r)
+		props.OtherTarget(r)
 		return r.Finish()
 	}()
 	os.Exit(code)
